@@ -33,6 +33,10 @@ func (m *K2PModel) Distance(seq1 []uint8, seq2 []uint8, weights []float64) (floa
 
 	trS, trV, _, _, total := countMutations(seq1, seq2, m.selectedSites, weights)
 	trS, trV = trS/total, trV/total
+	// Undefined distance (saturation or no comparable site): see jc.go
+	if !(1.-2.*trS-trV > 0) || !(1.-2.*trV > 0) {
+		return math.Inf(1), nil
+	}
 
 	if m.gamma {
 		dist = m.alpha * (.5*math.Pow(1.-2.*trS-trV, -1./m.alpha) + .25*math.Pow(1.-2.*trV, -1./m.alpha) - .75)
